@@ -79,10 +79,26 @@ def check(tier, seed):
     missed = [l for l in lines if l.startswith("MISSED")]
     chain = [l for l in lines if l.startswith("CHAIN")]
     ck.cov.update({"evaluations": stats.get("cases", 0), "distinct_nontrivial": stats.get("cases", 0) // 2, "traces_validated_against_impl": stats.get("cases", 0), "exhaustive": True,
-                   "chain_depths": chain})
-    ck.samples = [{"stats": stats, "chain": chain}]
+                   "chain_cases": len(chain)})
+    ck.samples = [{"stats": stats, "chain": chain[-14:]}]
     ck.obligation("real RepairInvalidUTF8 repairs an invalid message placed at each of the %d (root, path, depth) cases, one at a time" % stats.get("cases", 0), not missed,
                   "%d missed; first %s" % (len(missed), missed[0][:300] if missed else ""))
+    # the chain walk against the model's depth bound (Repair/Utf8.v max_depth): within it every position is repaired without
+    # error, beyond it an error is reported
+    import re
+    md = int(re.search(r"Definition max_depth : nat := (\d+)\.", open(os.path.join(V.ROOT, "coq/theories/Repair/Utf8.v")).read()).group(1))
+    badchain = []
+    for l in chain:
+        f = l.split()
+        n, kv = int(f[1]), dict(x.split("=") for x in f[2:])
+        if n <= md and (kv["changed"] != "true" or kv["err"] != "false" or kv["valid"] != "true"):
+            badchain.append(l)
+        if n > md and kv["err"] != "true":
+            badchain.append(l)
+    ck.obligation("failure chains of 1..12 causes with the invalid message at each position: repaired without error up to the supported depth %d of the model, reported as an error beyond it (%d cases)"
+                  % (md, len(chain)), not badchain and len(chain) == 78, "; ".join(badchain[:3]))
+    if badchain and not missed:
+        ck.violation({"kind": "chain", "cases": badchain[:10], "verdict": "a failure chain within the supported depth is not repaired (or one beyond it is passed on)"}, badchain[0])
     ck.log("%s, missed %d" % (stats, len(missed)))
     if missed:
         ck.violation({"kind": "paths", "missed": missed[:20], "verdict": "invalid UTF-8 at this place of this supported type is not repaired"}, missed[0][:400])
@@ -101,6 +117,9 @@ def check(tier, seed):
 def replay(data):
     err, lines, stats = run_paths()
     missed = [l for l in lines if l.startswith("MISSED")]
+    if data.get("kind") == "chain":
+        now = set(l for l in lines if l.startswith("CHAIN"))
+        missed = [c for c in data["cases"] if c in now]
     print(err or "\n".join(missed) or "(nothing missed)")
     print("REPRODUCED" if missed else "not reproduced on the current tree")
     return 1 if missed else 0
@@ -110,6 +129,6 @@ MANIFEST = {
     "technique": "Coq coverage theorem over a model regenerated from the sources (legacy schema by reflection, visitor by go/ast; vm_compute certificate + generic lifting lemma) + exhaustive per-path run of the real visitor",
     "text": "Repair_gen.v is regenerated on every run. C18_current_build evaluates in the kernel that for all 172 conversion-table root types every structural path to a failure message is one of the "
             "visitor's access paths ending in the repair call; C18_generic lifts this for any regenerated model. The real RepairInvalidUTF8 is run on a message with invalid UTF-8 at each (root, path) "
-            "one at a time, at cause depths 1 and 3, and on chains of 9..12 causes.",
+            "one at a time, at cause depths 1 and 3, and on chains of 1..12 causes with the invalid message at each position (repaired up to the model's depth bound, an error beyond it).",
     "note": "A harmless restructuring of the generated visitor that the go/ast reader does not recognise is reported as a translator error (no-failing-input-found after the exhaustive path run).",
 }
